@@ -658,13 +658,21 @@ void profile_history(RunCtx& ctx)
         if (rng.chance(0.15))
             sessions[s].push_back(make_load(ctx, rng, s));  // the client reuses the session for another document
     }
-    // class C: allocation failures attached to the op they hit
+    // class C: allocation failures, I/O errors on stream sources and a failing output sink, attached to the op they hit
     for (auto& ss : sessions)
-        for (auto& op : ss)
+        for (auto& op : ss) {
             if (rng.chance(0.12)) {
                 int mag = rng.range(0, 14);
                 op.call.alloc_fail_at = 1 + (int64_t)rng.below(1u << mag);
             }
+            const int e = op.call.entry;
+            if ((e == E_XML_FILE || e == E_XML_FD || e == E_XTA_FILE || e == E_PROP_FILE) && rng.chance(0.08)) {
+                op.call.sched.fault_at = 1 + (int)rng.below(rng.chance(0.7) ? 4 : 60);
+                op.call.sched.fault_kind = 1 + (int)rng.below(3);
+            }
+            if (op.call.backend == B_PRETTY && rng.chance(0.3))
+                op.call.sink_fail_after = rng.below(rng.chance(0.5) ? 40 : 3000);
+        }
     // interleaving: random merge
     std::vector<HOp> plan;
     {
